@@ -79,6 +79,11 @@ func (b *baseCockpit) remove(t *task.Task) {
 		}
 	}
 
+	if b.spinner == nil {
+		// nothing has been started yet, e.g. task was skipped
+		return
+	}
+
 	var mark = aurora.Green("✔")
 	if t.Errored {
 		mark = aurora.Red("✗")
